@@ -210,7 +210,11 @@ func v12CheckRoutes(typ string, lt *sdcpb.SchemaLeafType, want *sdcpb.TypedValue
 	verifrt.Assert(v12Same(got, want), pfx+"same-kind-and-datum")
 }
 
-var v12AllRoutes = []int{v12RTypedCTV, v12RTypedTVY, v12RStrCSTV, v12RStrConvert, v12RStrCTV, v12RStrTVY, v12RStrJson, v12RJson, v12RJsonIetf, v12RXml, v12RGnmi}
+// v12AllRoutes: every route once per converter (string-convertStringToTv is what
+// string-TypedValueToYANGType runs; string-Convert is xmltext-Convert for every
+// type whose XML text is its string form, and is exercised with the other
+// spellings in VerifC12Identityref).
+var v12AllRoutes = []int{v12RTypedCTV, v12RTypedTVY, v12RStrCTV, v12RStrTVY, v12RStrJson, v12RJson, v12RJsonIetf, v12RXml, v12RGnmi}
 
 // ---- boolean
 
@@ -295,24 +299,26 @@ func VerifC12Identityref() {
 		si := verifrt.Choice("spelling", 3)
 		s := spell[si]
 		se := v12Field(lt)
-		convs := []string{"convertStringToTv", "Convert", "ConvertJsonValueToTv", "TypedValueToYANGType", "ConvertTypedValueToYANGType"}
+		convs := []string{"Convert", "ConvertJsonValueToTv", "TypedValueToYANGType", "ConvertTypedValueToYANGType"}
 		ci := verifrt.Choice("conv", len(convs))
 		var got *sdcpb.TypedValue
 		var err error
 		switch ci {
 		case 0:
-			got, err = convertStringToTv(lt, s, 0)
-		case 1:
 			got, err = Convert(s, lt)
-		case 2:
+		case 1:
 			got, err = ConvertJsonValueToTv(s, lt)
-		case 3:
+		case 2:
 			got, err = TypedValueToYANGType(vStr(s), se)
 		default:
 			got, err = ConvertTypedValueToYANGType(se, vStr(s))
 		}
 		verifrt.Reach("converted")
 		pfx := "C12-identityref/" + spellName[si] + "-" + convs[ci] + "/"
+		if ci == 3 {
+			// one situation whatever the spelling: the label of the string route
+			pfx = "C12-identityref/" + v12RouteNames[v12RStrCTV] + "/"
+		}
 		verifrt.Assert(err == nil, pfx+"valid-value-accepted")
 		if err == nil {
 			verifrt.Assert(v12Same(got, want), pfx+"same-kind-and-datum")
@@ -334,13 +340,12 @@ func VerifC12Identityref() {
 func VerifC12IdentityrefForeignQualifier() {
 	lt := v12IdentityType()
 	s := "mod-other:des" // des is defined by mod-types, not by mod-other
-	convs := []string{"convertStringToTv", "Convert", "ConvertJsonValueToTv"}
-	ci := verifrt.Choice("conv", len(convs))
+	// all three end in convertStringToTv, which cuts the qualifier off unread: one situation
 	var got *sdcpb.TypedValue
 	var err error
-	switch ci {
+	switch verifrt.Choice("conv", 3) {
 	case 0:
-		got, err = convertStringToTv(lt, s, 0)
+		got, err = TypedValueToYANGType(vStr(s), v12Field(lt))
 	case 1:
 		got, err = Convert(s, lt)
 	default:
@@ -348,7 +353,7 @@ func VerifC12IdentityrefForeignQualifier() {
 	}
 	verifrt.Reach("converted")
 	des := vIdRef("des", "idt", "mod-types")
-	verifrt.Assert(err != nil || !v12Same(got, des), "C12-identityref/foreign-qualifier-"+convs[ci]+"/different-identity-not-equated")
+	verifrt.Assert(err != nil || !v12Same(got, des), "C12-identityref/foreign-qualifier/different-identity-not-equated")
 }
 
 // ---- empty
@@ -374,17 +379,15 @@ func VerifC12Empty() {
 		txts := []string{"", "{}"}
 		txt := txts[verifrt.Choice("text", 2)]
 		se := v12Field(lt)
-		convs := []string{"TypedValueToYANGType", "ConvertTypedValueToYANGType", "convertStringToTv"}
+		convs := []string{"TypedValueToYANGType", "ConvertTypedValueToYANGType"}
 		ci := verifrt.Choice("conv", len(convs))
 		var got *sdcpb.TypedValue
 		var err error
 		switch ci {
 		case 0:
 			got, err = TypedValueToYANGType(vStr(txt), se)
-		case 1:
-			got, err = ConvertTypedValueToYANGType(se, vStr(txt))
 		default:
-			got, err = convertStringToTv(lt, txt, 0)
+			got, err = ConvertTypedValueToYANGType(se, vStr(txt))
 		}
 		verifrt.Reach("converted")
 		// rejected, or the empty value: never "accepted" as nothing / as a string
@@ -426,20 +429,18 @@ func VerifC12Union() {
 	txt = TypedValueToString(want)
 	verifrt.Observe("text", txt)
 	se := v12Field(lt)
-	convs := []string{"convertStringToTv", "Convert", "ConvertJsonValueToTv", "TypedValueToYANGType", "ConvertTypedValueToYANGType", "typed-ConvertTypedValueToYANGType"}
+	convs := []string{"Convert", "ConvertJsonValueToTv", "TypedValueToYANGType", "ConvertTypedValueToYANGType", "typed-ConvertTypedValueToYANGType"}
 	ci := verifrt.Choice("conv", len(convs))
 	var got *sdcpb.TypedValue
 	var err error
 	switch ci {
 	case 0:
-		got, err = convertStringToTv(lt, txt, 0)
-	case 1:
 		got, err = Convert(txt, lt)
-	case 2:
+	case 1:
 		got, err = ConvertJsonValueToTv(txt, lt)
-	case 3:
+	case 2:
 		got, err = TypedValueToYANGType(vStr(txt), se)
-	case 4:
+	case 3:
 		got, err = ConvertTypedValueToYANGType(se, vStr(txt))
 	default:
 		got, err = ConvertTypedValueToYANGType(se, want)
@@ -900,28 +901,19 @@ func v12Pow10(p uint32) int64 {
 	return 1000
 }
 
-// VerifC12EqualTypedValuesPairs: for every ordered pair of kinds:
-// EqualTypedValues(a,b) iff a and b denote the same datum.
+// v12PairKinds: the kinds of VerifC12EqualTypedValuesPairs (double has its own
+// harness: the engine lists at most 50 violations per harness, and the
+// missing DoubleVal case of EqualTypedValues alone produces more).
+var v12PairKinds = []int{0, 1, 2, 3, 4, 5, 6, 7, 8, 9, 10, 11, 13}
+
+// v12EqualOracle: EqualTypedValues(a,b) iff a and b denote the same datum.
 //   - same kind: same payload; leaf-lists entry by entry in order; decimal64 by
 //     NUMBER (1.50 = 1.5: digits/10^precision), as the property text demands;
 //   - IntVal vs UintVal of the same number: the same datum for any integer
 //     leaf; asserted under its own label (callers normalise the kind by the
 //     schema only for values that arrive as strings);
 //   - every other pair of different kinds: different.
-func VerifC12EqualTypedValuesPairs() {
-	ka := verifrt.Choice("ka", v12NKinds)
-	kb := verifrt.Choice("kb", v12NKinds)
-	a, b := v12Kind(ka, "a"), v12Kind(kb, "b")
-	if ka == 4 {
-		// keep digits*10^3 inside int64
-		verifrt.Assume(verifrt.And(a.GetDecimalVal().Digits > -1000000, a.GetDecimalVal().Digits < 1000000))
-	}
-	if kb == 4 {
-		verifrt.Assume(verifrt.And(b.GetDecimalVal().Digits > -1000000, b.GetDecimalVal().Digits < 1000000))
-	}
-	got := EqualTypedValues(a, b)
-	verifrt.Reach("compared")
-	verifrt.Assert(EqualTypedValues(b, a) == got, "C12-equal/symmetric")
+func v12EqualOracle(ka, kb int, a, b *sdcpb.TypedValue, got bool) {
 	if ka != kb {
 		if (ka == 1 && kb == 2) || (ka == 2 && kb == 1) {
 			i, u := a.GetIntVal(), b.GetUintVal()
@@ -936,8 +928,8 @@ func VerifC12EqualTypedValuesPairs() {
 			}
 			return
 		}
-		if ka == 12 || ka == 13 || kb == 12 || kb == 13 {
-			verifrt.Assert(!got, "C12-equal/different-kinds-compare-different/double-or-float-involved")
+		if ka == 12 || kb == 12 {
+			verifrt.Assert(!got, "C12-equal/different-kinds-compare-different/double-involved")
 			return
 		}
 		verifrt.Assert(!got, "C12-equal/different-kinds-compare-different")
@@ -997,4 +989,58 @@ func VerifC12EqualTypedValuesPairs() {
 		}
 		verifrt.Assert(got == want, "C12-equal/same-kind-same-payload")
 	}
+}
+
+// VerifC12EqualTypedValuesPairs: every ordered pair of the kinds string, int,
+// uint, bool, decimal64, ascii, identityref, empty, leaf-list, bytes, json,
+// json_ietf, float.
+func VerifC12EqualTypedValuesPairs() {
+	ka := v12PairKinds[verifrt.Choice("ka", len(v12PairKinds))]
+	kb := v12PairKinds[verifrt.Choice("kb", len(v12PairKinds))]
+	a, b := v12Kind(ka, "a"), v12Kind(kb, "b")
+	if ka == 4 {
+		// keep digits*10^3 inside int64
+		verifrt.Assume(verifrt.And(a.GetDecimalVal().Digits > -1000000, a.GetDecimalVal().Digits < 1000000))
+	}
+	if kb == 4 {
+		verifrt.Assume(verifrt.And(b.GetDecimalVal().Digits > -1000000, b.GetDecimalVal().Digits < 1000000))
+	}
+	got := EqualTypedValues(a, b)
+	verifrt.Reach("compared")
+	// (a path continues only under its assertions: the situation labels come
+	// first, symmetry last)
+	v12EqualOracle(ka, kb, a, b, got)
+	verifrt.Assert(EqualTypedValues(b, a) == got, "C12-equal/symmetric")
+}
+
+// VerifC12EqualTypedValuesDouble: DoubleVal (what FromGNMITypedValue makes of
+// gNMI double, float and decimal values) against itself and against string,
+// uint, decimal64, empty, leaf-list and float, in both argument orders.
+func VerifC12EqualTypedValuesDouble() {
+	others := []int{12, 0, 2, 4, 7, 13}
+	ko := others[verifrt.Choice("other", len(others))]
+	dbl := v12Kind(12, "d")
+	var o *sdcpb.TypedValue
+	switch ko {
+	case 0:
+		o = vStr("1")
+	case 2:
+		o = vUint(1)
+	case 4:
+		o = vDec(1, 0)
+	case 7:
+		o = vEmpty()
+	case 13:
+		o = &sdcpb.TypedValue{Value: &sdcpb.TypedValue_FloatVal{FloatVal: 1}}
+	default:
+		o = v12Kind(12, "o")
+	}
+	ka, kb, a, b := 12, ko, dbl, o
+	if verifrt.Choice("double-is", 2) == 1 {
+		ka, kb, a, b = ko, 12, o, dbl
+	}
+	got := EqualTypedValues(a, b)
+	verifrt.Reach("compared")
+	v12EqualOracle(ka, kb, a, b, got)
+	verifrt.Assert(EqualTypedValues(b, a) == got, "C12-equal/symmetric/double-involved")
 }
